@@ -134,6 +134,10 @@ structure Settings where
   hasVersion : Bool := false
   /-- `AppSettings::Built`: set by `_build_self`, which is a no-op once it is set -/
   built : Bool := false
+  /-- `Command::allow_hyphen_values` / `allow_negative_numbers`: switched on for every value-taking arg OF THIS LEVEL at
+  the end of `_build_self` (globals handed down to subcommands are unbuilt clones and do not carry them) -/
+  allowHyphenValues : Bool := false
+  allowNegativeNumbers : Bool := false
 deriving Repr, DecidableEq
 
 inductive Cmd
